@@ -405,8 +405,8 @@ func opRemoveConsumer(w *World) *Op {
 	if ci == nil || ci.Owner == nil {
 		return nil
 	}
-	if ci.WantLive && w.Rnd.Intn(4) != 0 {
-		return nil // keep live consumers around most of the time
+	if ci.StarveAt > 0 || (ci.WantLive && w.Rnd.Intn(4) != 0) {
+		return nil // keep live consumers around most of the time; starved ones are left to time out
 	}
 	w.Op("remove-consumer %s by %s", ci.ID, ci.Owner.Name)
 	return one("remove-consumer", ci.Owner, &providertypes.MsgRemoveConsumer{ConsumerId: ci.ID, Owner: ci.Owner.Addr.String()})
